@@ -1049,3 +1049,59 @@ func (p *Prog) flagIsExactly(f *Func, ft Fact) bool {
 	scan(root)
 	return okAll
 }
+
+// inspectThroughLocals: ast.Inspect over e in which a local variable defined
+// exactly once stands for its defining expression (named intermediates are
+// looked through, to a fixed depth).
+func (p *Prog) inspectThroughLocals(f *Func, e ast.Node, visit func(n ast.Node) bool) {
+	seen := map[types.Object]bool{}
+	var rec func(n ast.Node, depth int)
+	rec = func(n ast.Node, depth int) {
+		ast.Inspect(n, func(x ast.Node) bool {
+			if x == nil {
+				return true
+			}
+			if !visit(x) {
+				return false
+			}
+			if id, ok := x.(*ast.Ident); ok && depth < 6 {
+				if v, isVar := p.ObjOf(id).(*types.Var); isVar && !v.IsField() && v.Pkg() != nil && v.Parent() != v.Pkg().Scope() && !seen[v] && f.Root().Body != nil && v.Pos() >= f.Root().Body.Pos() {
+					if d, okD := p.SingleDef(f, v); okD && d.Rhs != nil {
+						seen[v] = true
+						rec(d.Rhs, depth+1)
+					}
+				}
+			}
+			return true
+		})
+	}
+	rec(e, 0)
+}
+
+// Deref: e with local variables that are defined exactly once replaced, at the
+// top, by their defining expression ("local, remote := pair.Local, pair.Remote";
+// named intermediates do not hide what a value is).
+func (p *Prog) Deref(f *Func, e ast.Expr) ast.Expr {
+	for i := 0; i < 5; i++ {
+		id, ok := unparen(e).(*ast.Ident)
+		if !ok {
+			break
+		}
+		v, isVar := p.ObjOf(id).(*types.Var)
+		if !isVar || v.IsField() || v.Pkg() == nil || v.Parent() == v.Pkg().Scope() {
+			break
+		}
+		if root := f.Root(); root.Body == nil || v.Pos() < root.Body.Pos() {
+			break // a parameter: its first value comes from the caller
+		}
+		d, okD := p.SingleDef(f, v)
+		if !okD || d.Rhs == nil || d.Index != 0 {
+			break
+		}
+		if _, isCall := unparen(d.Rhs).(*ast.CallExpr); isCall && !isConversion(p, d.Rhs) {
+			break
+		}
+		e = d.Rhs
+	}
+	return e
+}
